@@ -66,7 +66,9 @@ def alphabet(tier: str, variant: str = "full") -> Tuple[List[List[tuple]], List[
                                   [PTR(TA, X, 4500, 3)])}
         d = [x for x in d if repr(x) in keep]
         steps = [1, 1000, 1001, 10000, 1125001, 4500000]
-    ops = [("start", "a"), ("cancel", "a"), ("start", "ab")]
+    # ("b": a browser for the other type only - started while a pointer of the first type has run out but is not purged yet,
+    # it stays inside the quantifier and still makes the instance look at its cache)
+    ops = [("start", "a"), ("cancel", "a"), ("start", "ab"), ("start", "b")]
     if tier != "quick":
         ops += [("cancel", "ab")]
     return d, steps, ops
@@ -156,7 +158,7 @@ class Search:
                 elif ev[0] == "t":
                     w.advance(ev[1])
                 elif ev[0] == "start":
-                    types = [self.ren.get(t, t) for t in ([TA] if ev[1] == "a" else [TA, TB])]
+                    types = [self.ren.get(t, t) for t in ({"a": [TA], "b": [TB], "ab": [TA, TB]}[ev[1]])]
                     now = w.now_ms
                     if any(r.type == 12 and r.is_expired(now) for t in types for r in zc.cache.entries_with_name(t)):
                         skipped = True  # quantifier: browsers are not created over expired-but-unpurged pointers
